@@ -67,6 +67,7 @@ type profile struct {
 	pCookie      float64
 	pCors        float64
 	pInitial     float64
+	pPrimer      float64
 	smallHB      float64 // probability of sub-second heartbeat settings
 	hot          []string
 	pHttpServer  float64
@@ -100,7 +101,7 @@ func profileFor(prop string) profile {
 		p.faultFree, p.maxClients, p.pAppClose, p.pServerClose, p.pClientFault, p.pClientClose = 0.2, 4, 0.4, 0.2, 0.5, 0.3
 		p.hot = []string{"baseServer.Handshake", "socket.OnClose", "socket.onOpen", "socket.Construct", "NewSocket"}
 	case "C06":
-		p.faultFree, p.maxClients, p.pInitial, p.pCookie = 0.8, 4, 0.5, 0.4
+		p.faultFree, p.maxClients, p.pInitial, p.pCookie, p.pPrimer = 0.8, 4, 0.5, 0.4, 0.3
 	case "C07":
 		p.faultFree, p.smallHB, p.pLatePong, p.pSilence, p.pUpgrade = 0.4, 1, 0.5, 0.3, 0.15
 		p.pAppClose, p.pServerClose, p.pClientFault, p.pClientClose = 0, 0, 0.1, 0
@@ -183,6 +184,9 @@ func genOpts(g *G, p *profile) OptSpec {
 	}
 	if g.p(p.pInitial) {
 		o.InitialPacket = "init:" + fmt.Sprint(g.IntN(1000))
+	}
+	if g.p(p.pPrimer) {
+		o.Primer = [][]string{{"polling"}, {"polling", "websocket"}, {"polling", "webtransport"}, {"websocket"}}[g.IntN(4)]
 	}
 	if g.p(p.pCookie) {
 		o.Cookie = &CookieSpec{Name: g.picks("", "io", "sid"), Path: g.picks("", "/", "/x"), MaxAge: g.pick(0, 0, 3600), Secure: g.p(0.2), SameSite: g.pick(0, 2, 3)}
@@ -550,6 +554,20 @@ func GenSession(prop string, seed uint64, thorough bool) *Scenario {
 		n := g.rng(1, 2)
 		for i := 0; i < n; i++ {
 			sc.Reent = append(sc.Reent, ReentSpec{Event: g.picks("message", "packet", "packetCreate", "flush", "drain", "heartbeat", "upgrade", "upgrading", "close", "callback"), Call: g.picks("send", "send", "close", "close-discard"), Nth: g.rng(1, 3)})
+		}
+	}
+	// C07: an application 'heartbeat' listener that takes time must not disturb the heartbeat itself (the
+	// timers are dealt with before the event is emitted)
+	if prop == "C07" && g.p(0.25) {
+		cl := sc.Clients[g.IntN(len(sc.Clients))]
+		if len(cl.Raw) == 0 {
+			lim := pt - 20
+			if lim > 400 {
+				lim = 400
+			}
+			if lim >= 5 {
+				sc.Reent = append(sc.Reent, ReentSpec{Event: "heartbeat", Call: "sleep", Ms: g.pick(lim/4+1, lim/2+1, lim), Sess: cl.Name, Nth: g.rng(1, 3)})
+			}
 		}
 	}
 	// C11: a message listener that takes time keeps its data request in flight across virtual instants; an
